@@ -73,7 +73,8 @@ type simNet struct {
 	// dialPeer short-circuits)
 	notConnected map[peer.ID]bool
 	notifiees    []network.Notifiee
-	peers        []peer.ID // what Peers() reports (the peers connected when the DHT is created)
+	peers        []peer.ID        // what Peers() reports (the peers connected when the DHT is created)
+	dialOK       map[peer.ID]bool // a notConnected peer whose dial succeeds once the driver releases it
 }
 
 func (n *simNet) Connectedness(p peer.ID) network.Connectedness {
@@ -84,17 +85,21 @@ func (n *simNet) Connectedness(p peer.ID) network.Connectedness {
 	}
 	return network.Connected
 }
-func (n *simNet) Peers() []peer.ID                      { return append([]peer.ID(nil), n.peers...) }
-func (n *simNet) Conns() []network.Conn                 { return nil }
-func (n *simNet) ConnsToPeer(peer.ID) []network.Conn    { return nil }
-func (n *simNet) LocalPeer() peer.ID                    { return n.self }
-func (n *simNet) Peerstore() peerstore.Peerstore        { return n.ps }
-func (n *simNet) Notify(f network.Notifiee)             { n.mu.Lock(); n.notifiees = append(n.notifiees, f); n.mu.Unlock() }
-func (n *simNet) StopNotify(network.Notifiee)           {}
-func (n *simNet) ListenAddresses() []ma.Multiaddr       { return nil }
+func (n *simNet) Peers() []peer.ID                   { return append([]peer.ID(nil), n.peers...) }
+func (n *simNet) Conns() []network.Conn              { return nil }
+func (n *simNet) ConnsToPeer(peer.ID) []network.Conn { return nil }
+func (n *simNet) LocalPeer() peer.ID                 { return n.self }
+func (n *simNet) Peerstore() peerstore.Peerstore     { return n.ps }
+func (n *simNet) Notify(f network.Notifiee) {
+	n.mu.Lock()
+	n.notifiees = append(n.notifiees, f)
+	n.mu.Unlock()
+}
+func (n *simNet) StopNotify(network.Notifiee)                       {}
+func (n *simNet) ListenAddresses() []ma.Multiaddr                   { return nil }
 func (n *simNet) InterfaceListenAddresses() ([]ma.Multiaddr, error) { return nil, nil }
-func (n *simNet) ClosePeer(peer.ID) error               { return nil }
-func (n *simNet) Close() error                          { return nil }
+func (n *simNet) ClosePeer(peer.ID) error                           { return nil }
+func (n *simNet) Close() error                                      { return nil }
 
 type simHost struct {
 	host.Host
@@ -133,7 +138,7 @@ func (h *simHost) RemoveStreamHandler(p protocol.ID) {
 func (h *simHost) Close() error { return nil }
 
 // Connect is only reached for peers marked notConnected: the dial parks on a
-// gate and fails when released (a dial that succeeds is a connected peer).
+// gate and, when released, fails - or succeeds for a peer in dialOK (a slow dial).
 func (h *simHost) Connect(ctx context.Context, pi peer.AddrInfo) error {
 	if h.net.Connectedness(pi.ID) == network.Connected {
 		return nil
@@ -144,6 +149,15 @@ func (h *simHost) Connect(ctx context.Context, pi peer.AddrInfo) error {
 	}
 	if c.err != nil {
 		return c.err
+	}
+	h.net.mu.Lock()
+	ok := h.net.dialOK[pi.ID]
+	if ok {
+		delete(h.net.notConnected, pi.ID) // connected from now on
+	}
+	h.net.mu.Unlock()
+	if ok {
+		return nil
 	}
 	return errors.New("sim: dial failed")
 }
@@ -297,7 +311,6 @@ type simNode struct {
 	sender *simSender
 	d      *IpfsDHT
 }
-
 
 // simNewNode builds a real IpfsDHT on the fake host.  Must be called inside a
 // synctest bubble; call Close before the bubble ends.
